@@ -77,7 +77,10 @@ class KlongContext():
             # Check if variable exists in any scope
             for d in self._context:
                 if in_map(k, d):
-                    d[k] = v
+                    # wrap Python callables here too: overwriting an existing name
+                    # with a callable used to store it raw, and name(...) then
+                    # returned the function object instead of calling it
+                    set_context_var(d, k, v)
                     return k
 
         # Variable doesn't exist - check strict mode
